@@ -160,9 +160,89 @@ func ruleLockset(c *Ctx) {
 		work := []*ssa.BasicBlock{fn.Blocks[0]}
 		in[0] = lockState{}
 		visited[0] = true
+		// values loaded from guarded map/slice fields: they still refer to the guarded storage, so
+		// every later use must also happen with the mutex held
+		guardedRef := map[ssa.Value]string{} // value -> "mutexTerm|Type.field"
+		for _, b := range fn.Blocks {
+			for _, ins := range b.Instrs {
+				fa, ok := ins.(*ssa.FieldAddr)
+				if !ok || fa.Referrers() == nil {
+					continue
+				}
+				named := namedOfPtr(fa.X.Type())
+				mf, isM := ms[named]
+				if !isM || fieldName(fa.X.Type(), fa.Field) == mf {
+					continue
+				}
+				if _, fresh := fa.X.(*ssa.Alloc); fresh {
+					continue
+				}
+				for _, r := range *fa.Referrers() {
+					if ld, ok := r.(*ssa.UnOp); ok && ld.Op == token.MUL && isRefType(ld.Type()) {
+						guardedRef[ld] = "&" + env.Term(fa.X).String() + "." + mf + "|" + named.Obj().Name() + "." + fieldName(fa.X.Type(), fa.Field)
+					}
+				}
+			}
+		}
+		for changed := true; changed; {
+			changed = false
+			for v, g := range guardedRef {
+				if v.Referrers() == nil {
+					continue
+				}
+				for _, r := range *v.Referrers() {
+					switch x := r.(type) {
+					case *ssa.Phi, *ssa.ChangeType, *ssa.MakeInterface, *ssa.Slice:
+						if _, ok := guardedRef[x.(ssa.Value)]; !ok {
+							guardedRef[x.(ssa.Value)] = g
+							changed = true
+						}
+					}
+				}
+			}
+		}
+		checkRefUse := func(ins ssa.Instruction, st lockState) {
+			var ops []*ssa.Value
+			for _, op := range ins.Operands(ops) {
+				if op == nil || *op == nil {
+					continue
+				}
+				g, ok := guardedRef[*op]
+				if !ok {
+					continue
+				}
+				if _, isDef := ins.(*ssa.Phi); isDef {
+					continue
+				}
+				if _, isDbg := ins.(*ssa.DebugRef); isDbg {
+					continue
+				}
+				parts := strings.SplitN(g, "|", 2)
+				need := lkR
+				kind := "read"
+				if mu, ok := ins.(*ssa.MapUpdate); ok && mu.Map == *op {
+					need, kind = lkW, "write"
+				}
+				if _, isRet := ins.(*ssa.Return); isRet {
+					continue // handled by L-escape
+				}
+				if _, same := ins.(*ssa.UnOp); same && ins.(*ssa.UnOp) == (*op).(ssa.Instruction) {
+					continue
+				}
+				key := fmt.Sprintf("%s/use-of-guarded %s#%s", funcName(fn), parts[1], instrOrdinalOf2(ins))
+				if st[parts[0]] >= need {
+					c.OK("L-fee", key, ins.Pos(), fmt.Sprintf("%s of the guarded %s through a local copy of the reference, with %s held", kind, parts[1], parts[0]))
+				} else {
+					c.Fail("L-fee", key, ins.Pos(), fmt.Sprintf("%s of the guarded %s through a reference that was read under the lock but is used here with %s held in mode %s: the map/slice itself is still shared, so this races with writers", kind, parts[1], parts[0], st[parts[0]]))
+				}
+			}
+		}
 		transfer := func(b *ssa.BasicBlock, st lockState, report bool) lockState {
 			st = st.clone()
 			for _, ins := range b.Instrs {
+				if report && len(guardedRef) > 0 {
+					checkRefUse(ins, st)
+				}
 				switch x := ins.(type) {
 				case *ssa.Defer:
 					if mt, op, ok := lockCall(env, x); ok && (op == "Unlock" || op == "RUnlock") {
@@ -500,4 +580,17 @@ func pkgFunctions(p *Prog, path string) []*ssa.Function {
 	}
 	sort.SliceStable(out, func(i, j int) bool { return out[i].Pos() < out[j].Pos() })
 	return out
+}
+
+func instrOrdinalOf2(ins ssa.Instruction) string {
+	if v, ok := ins.(ssa.Value); ok {
+		return fmt.Sprintf("%T", ins)[5:] + instrOrdinal(v)
+	}
+	b := ins.Block()
+	for i, x := range b.Instrs {
+		if x == ins {
+			return fmt.Sprintf("b%d.%d", b.Index, i)
+		}
+	}
+	return "?"
 }
